@@ -1,7 +1,8 @@
 (* Extract_velocity.v -- extraction of the C18 models to OCaml (ExtrOcamlBasic only). *)
 From Coq Require Import Extraction ExtrOcamlBasic.
 From PV Require Import Num Model_pathlines Entry_velocity.
-From PV.gen Require Import Gen_velocity Gen_velocity_utils.
+From PV.gen Require Import Gen_velocity Gen_velocity_utils Gen_pathlines.
 Extraction Language OCaml.
 Extraction "model_velocity.ml" run_velocity run_gradient run_indices run_strain_increment
-  run_is_inside run_ivp_func run_event run_timestamps.
+  run_is_inside run_ivp_func run_event run_timestamps
+  run_gen_wrap run_gen_is_inside run_gen_ivp run_gen_event run_gen_request run_gen_timestamps.
